@@ -167,7 +167,9 @@ impl super::Authorizer {
 
             for fact in &facts {
                 let fact = proto_fact_to_token_fact(fact)?;
-                //let fact = Fact::convert_from(&fact, &symbols)?.convert(&mut authorizer.symbols);
+                // a fact that refers to symbols the snapshot does not define must be refused
+                // here: the authorizer's accessors assume every fact can be printed
+                crate::builder::Fact::convert_from(&fact, &authorizer.symbols)?;
                 authorizer.world.facts.insert(&origin, fact);
             }
         }
